@@ -90,6 +90,8 @@ def _cfg_variant(cfg, h):
     """Every third CSV history runs with flush_on_insert=False (reads go through the same buffered handle)."""
     if cfg["storage"] == "csv" and h % 11 == 5:
         return dict(cfg, access_mode="w+")  # a database created with "w+" and then used for everything
+    if cfg["storage"] == "csv" and h % 13 == 8:
+        return dict(cfg, encoding="latin-1")  # every file the storage opens must be opened with it, scratch files included
     if cfg["storage"] == "csv" and h % 3 == 0:
         return dict(cfg, flush=False)
     if cfg["storage"] == "csv" and h % 7 == 4:
@@ -112,7 +114,14 @@ def run(res, tier, seed, shard, nshards):
         for ci, cfg in enumerate(CONFIGS):
             for h in range(N_HIST[tier]):
                 rng = rng_for("C02", tier, seed, shard, ci, h)
-                s = NoMatchRunner(res, _cfg_variant(cfg, h), scratch, rng, _wild(_with_big_ints(profile(h), cfg, h), h, rng, res), judge).run()
+                cfgv = _cfg_variant(cfg, h)
+                prof = _wild(_with_big_ints(profile(h), cfg, h), h, rng, res)
+                if cfgv.get("encoding"):
+                    # text the configured encoding can express and ASCII cannot
+                    prof.extra_tag_vals = list(prof.extra_tag_vals) + ["\u00e9t\u00e9", "\u00fc", "\u00a3"]
+                    prof.extra_meas = list(prof.extra_meas) + ["m\u00e9t\u00e9o"]
+                    res.count("histories_non_default_encoding")
+                s = NoMatchRunner(res, cfgv, scratch, rng, prof, judge).run()
                 if h == 0 and shard == 0 and ci in (1, 2):
                     res.sample({"config": cfg_name(cfg), "first_ops": s.log[:5]})
     for b in contracts.drain(res):
